@@ -259,6 +259,14 @@ def judge_radial(name, seed, kind):
         partial = []
         if r.max() - r.min() > 0.3:
             partial = [(0.4, float(0.5 * (r.min() + r.max()))), (float(0.5 * (r.min() + r.max())), 20.0)]   # found in SOME directions only
+        # the surface leaves the bounds along a single grid direction only (the largest / the smallest radius)
+        rs = np.sort(r)
+        if rs[-1] - rs[-2] > 2e-3:
+            partial.append((0.4, float(0.5 * (rs[-1] + rs[-2]))))
+        if rs[1] - rs[0] > 2e-3 and rs[0] > 0.45:
+            partial.append((float(0.5 * (rs[0] + rs[1])), 20.0))
+        if rs[-1] - rs[-4] > 2e-3:
+            partial.append((0.4, float(rs[-4] + 0.5 * (rs[-3] - rs[-4]) if rs[-3] - rs[-4] > 2e-3 else rs[-1] - 1e-3)))
         for bounds in [(0.4, 0.8), (float(r.max()) + 1.0, 20.0)] + partial:
             try:
                 promolecule_density_descriptor(sht, n, p, bounds=bounds)
@@ -309,6 +317,15 @@ def judge_molecule_api(name, seed):
     e = err_of(d0, d1, 6)
     if e > ROT_TOL[6]:
         return f"{tag}: Molecule.shape_descriptors changes by {e:.3g} under a rigid motion + permutation"
+    # an explicit origin moves with the molecule: described about one of its atoms, before and after a pure translation
+    k0 = int(nrng.integers(0, len(n)))
+    mT = Molecule.from_arrays(n, p + t)
+    dO, dT = m0.shape_descriptors(l_max=6, origin=p[k0].copy()), mT.shape_descriptors(l_max=6, origin=(p + t)[k0].copy())
+    e = err_of(dO, dT, 6)
+    if e > 5e-3:
+        return f"{tag}: Molecule.shape_descriptors(origin=atom {k0}) changes by {e:.3g} when the molecule and the origin are translated together by {t.tolist()}"
+    if err_of(dO, d0, 6) < 1e-9 and np.linalg.norm(p[k0] - p.mean(axis=0)) > 0.3:
+        return f"{tag}: Molecule.shape_descriptors ignores the requested origin (atom {k0}): same descriptor as about the default origin"
     try:
         a0, a1 = m0.atomic_shape_descriptors(l_max=4), m1.atomic_shape_descriptors(l_max=4)
     except Exception as ex:  # noqa   (with the default background every atom of a compact molecule has a closed surface)
@@ -338,6 +355,13 @@ def judge_crystal(fname, seed):
     d1 = c2.molecular_shape_descriptors(l_max=4)
     if d0.shape != d1.shape:
         return f"{fname}: {d0.shape[0]} unique molecules before and {d1.shape[0]} after an origin shift + atom permutation"
+    # the same crystal object asked again with another environment radius answers like a crystal that is asked for the first time
+    for rad in (3.8, 9.0):
+        again = p1.molecular_shape_descriptors(l_max=4, radius=rad)
+        fresh = Crystal.load(path).as_P1().molecular_shape_descriptors(l_max=4, radius=rad)
+        if again.shape != fresh.shape or np.abs(again - fresh).max() > 1e-6:
+            return (f"{fname}: molecular_shape_descriptors(radius={rad}) on a crystal already described with another radius differs from a fresh "
+                    f"crystal's by {np.abs(again - fresh).max():.3g}")
     # match as multisets
     used = set()
     for a in d0:
